@@ -1199,7 +1199,8 @@ func cmdServe(args []string) {
 		// (the order of the two debug modes alternates: the last requests of one configuration and the first of the next - with or
 		// without a passthrough phase in between - are served in the SAME mode every other time, in different modes otherwise)
 		dbgOrder := []bool{false, true}
-		if nth%2 == 0 {
+		if nth%2 == 0 && *prop != "C09" {
+			// (C09's monitor compares the debug-on block position by position with the debug-off block recorded BEFORE it)
 			dbgOrder = []bool{true, false}
 		}
 		for _, dbg := range dbgOrder {
